@@ -44,34 +44,34 @@ func (m *Model) eval(t *Term) uint64 {
 	if t.Op == OVar {
 		return m.Vals[t.ID]
 	}
-	return evalNode(t, m.Eval)
+	return evalNode(t, func(i int) uint64 { return m.Eval(t.Args[i]) })
 }
 
-// evalNode evaluates one non-variable node given an evaluator for its arguments.
-func evalNode(t *Term, ev func(*Term) uint64) uint64 {
+// evalNode evaluates one non-variable node given an evaluator for its i-th argument.
+func evalNode(t *Term, ev func(int) uint64) uint64 {
 	w := t.Sort.W
 	switch t.Op {
 	case OVar:
 		panic("evalNode on variable")
 	case ONot:
-		return 1 - ev(t.Args[0])
+		return 1 - ev(0)
 	case OAnd:
-		if ev(t.Args[0]) == 0 {
+		if ev(0) == 0 {
 			return 0
 		}
-		return ev(t.Args[1])
+		return ev(1)
 	case OOr:
-		if ev(t.Args[0]) != 0 {
+		if ev(0) != 0 {
 			return 1
 		}
-		return ev(t.Args[1])
+		return ev(1)
 	case OIte:
-		if ev(t.Args[0]) != 0 {
-			return ev(t.Args[1])
+		if ev(0) != 0 {
+			return ev(1)
 		}
-		return ev(t.Args[2])
+		return ev(2)
 	case OEq:
-		a, b := ev(t.Args[0]), ev(t.Args[1])
+		a, b := ev(0), ev(1)
 		if t.Args[0].Sort.K == KFP {
 			// SMT "=" on FP: identical values, all NaNs equal
 			fa, fb := math.Float64frombits(a), math.Float64frombits(b)
@@ -81,31 +81,31 @@ func evalNode(t *Term, ev func(*Term) uint64) uint64 {
 		}
 		return b2u(a == b)
 	case OBvNot:
-		return ^ev(t.Args[0]) & mask(w)
+		return ^ev(0) & mask(w)
 	case OBvNeg:
-		return -ev(t.Args[0]) & mask(w)
+		return -ev(0) & mask(w)
 	case OBvAnd, OBvOr, OBvXor, OBvAdd, OBvSub, OBvMul, OBvUDiv, OBvURem, OBvSDiv, OBvSRem, OBvShl, OBvLShr, OBvAShr:
-		v, _ := evalBin(t.Op, w, ev(t.Args[0]), ev(t.Args[1]))
+		v, _ := evalBin(t.Op, w, ev(0), ev(1))
 		return v
 	case OBvULt, OBvULe, OBvSLt, OBvSLe:
-		return b2u(evalCmp(t.Op, t.Args[0].Sort.W, ev(t.Args[0]), ev(t.Args[1])))
+		return b2u(evalCmp(t.Op, t.Args[0].Sort.W, ev(0), ev(1)))
 	case OConcat:
-		return ev(t.Args[0])<<uint(t.Args[1].Sort.W) | ev(t.Args[1])
+		return ev(0)<<uint(t.Args[1].Sort.W) | ev(1)
 	case OExtract:
-		return (ev(t.Args[0]) >> uint(t.Lo())) & mask(w)
+		return (ev(0) >> uint(t.Lo())) & mask(w)
 	case OZExt:
-		return ev(t.Args[0])
+		return ev(0)
 	case OSExt:
-		return uint64(sext(ev(t.Args[0]), t.Args[0].Sort.W)) & mask(w)
+		return uint64(sext(ev(0), t.Args[0].Sort.W)) & mask(w)
 	case OSelect:
-		i := ev(t.Args[0])
+		i := ev(0)
 		n := uint64(len(t.Args) - 1)
 		if i >= n {
 			i = n - 1
 		}
-		return ev(t.Args[1+i])
+		return ev(int(1 + i))
 	case OFAdd, OFSub, OFMul, OFDiv, OFMin, OFMax:
-		x, y := math.Float64frombits(ev(t.Args[0])), math.Float64frombits(ev(t.Args[1]))
+		x, y := math.Float64frombits(ev(0)), math.Float64frombits(ev(1))
 		var r float64
 		switch t.Op {
 		case OFAdd:
@@ -123,7 +123,7 @@ func evalNode(t *Term, ev func(*Term) uint64) uint64 {
 		}
 		return math.Float64bits(r)
 	case OFNeg, OFAbs, OFSqrt, OFFloor, OFCeil, OFRoundRTZ:
-		x := math.Float64frombits(ev(t.Args[0]))
+		x := math.Float64frombits(ev(0))
 		var r float64
 		switch t.Op {
 		case OFNeg:
@@ -141,7 +141,7 @@ func evalNode(t *Term, ev func(*Term) uint64) uint64 {
 		}
 		return math.Float64bits(r)
 	case OFLt, OFLe, OFEq:
-		x, y := math.Float64frombits(ev(t.Args[0])), math.Float64frombits(ev(t.Args[1]))
+		x, y := math.Float64frombits(ev(0)), math.Float64frombits(ev(1))
 		switch t.Op {
 		case OFLt:
 			return b2u(x < y)
@@ -151,19 +151,19 @@ func evalNode(t *Term, ev func(*Term) uint64) uint64 {
 			return b2u(x == y)
 		}
 	case OFIsNaN:
-		return b2u(math.IsNaN(math.Float64frombits(ev(t.Args[0]))))
+		return b2u(math.IsNaN(math.Float64frombits(ev(0))))
 	case OFIsInf:
-		return b2u(math.IsInf(math.Float64frombits(ev(t.Args[0])), 0))
+		return b2u(math.IsInf(math.Float64frombits(ev(0)), 0))
 	case OSIToFP:
-		return math.Float64bits(float64(sext(ev(t.Args[0]), t.Args[0].Sort.W)))
+		return math.Float64bits(float64(sext(ev(0), t.Args[0].Sort.W)))
 	case OUIToFP:
-		return math.Float64bits(float64(ev(t.Args[0])))
+		return math.Float64bits(float64(ev(0)))
 	case OFPToSI:
-		return uint64(int64(math.Float64frombits(ev(t.Args[0])))) & mask(w)
+		return uint64(int64(math.Float64frombits(ev(0)))) & mask(w)
 	case OFPToUI:
-		return uint64(math.Float64frombits(ev(t.Args[0]))) & mask(w)
+		return uint64(math.Float64frombits(ev(0))) & mask(w)
 	case OFFromBits:
-		return ev(t.Args[0])
+		return ev(0)
 	}
 	panic(fmt.Sprintf("eval: op %s", opNames[t.Op]))
 }
@@ -179,10 +179,12 @@ func (m *Model) Clone() *Model {
 
 // Compiled is a topologically ordered cone for repeated evaluation (truth-table decisions).
 type Compiled struct {
-	nodes []*Term
-	slot  map[int]int
-	vals  []uint64
-	Vars  []*Term
+	nodes   []*Term
+	args    [][]int32 // slots of each node's arguments
+	slot    map[int]int
+	vals    []uint64
+	Vars    []*Term
+	varSlot []int
 }
 
 func Compile(roots ...*Term) *Compiled {
@@ -213,33 +215,77 @@ func Compile(roots ...*Term) *Compiled {
 		}
 		c.slot[t.ID] = len(c.nodes)
 		c.nodes = append(c.nodes, t)
+		var as []int32
+		for _, a := range t.Args {
+			as = append(as, int32(c.slot[a.ID]))
+		}
+		c.args = append(c.args, as)
 		if t.Op == OVar {
 			c.Vars = append(c.Vars, t)
+			c.varSlot = append(c.varSlot, len(c.nodes)-1)
 		}
 	}
 	c.vals = make([]uint64, len(c.nodes))
+	for i, t := range c.nodes {
+		if t.Op == OConst {
+			c.vals[i] = t.K
+		}
+	}
 	return c
 }
 
 func (c *Compiled) Size() int { return len(c.nodes) }
 
-// Run evaluates all nodes under the assignment (by variable ID) and returns a reader.
-func (c *Compiled) Run(assign map[int]uint64) func(*Term) uint64 {
-	get := func(t *Term) uint64 {
-		if t.Op == OConst {
-			return t.K
+// Hard reports whether the cone contains operators on which bit-blasting solvers tend to stall
+// (table look-ups, multiplication, division).
+func (c *Compiled) Hard() bool {
+	for _, t := range c.nodes {
+		switch t.Op {
+		case OSelect, OBvMul, OBvUDiv, OBvURem, OBvSDiv, OBvSRem:
+			return true
 		}
-		return c.vals[c.slot[t.ID]]
 	}
+	return false
+}
+
+// Slot returns the value slot of a term of the cone (after RunVals).
+func (c *Compiled) Value(t *Term) uint64 {
+	if t.Op == OConst {
+		return t.K
+	}
+	return c.vals[c.slot[t.ID]]
+}
+
+// RunVals evaluates all nodes with Vars[i] = vals[i].
+func (c *Compiled) RunVals(varVals []uint64) {
+	for i, s := range c.varSlot {
+		c.vals[s] = varVals[i]
+	}
+	vals := c.vals
 	for i, t := range c.nodes {
 		switch t.Op {
-		case OConst:
-			c.vals[i] = t.K
-		case OVar:
-			c.vals[i] = assign[t.ID]
+		case OConst, OVar:
+		case OSelect:
+			as := c.args[i]
+			idx := vals[as[0]]
+			n := uint64(len(as) - 1)
+			if idx >= n {
+				idx = n - 1
+			}
+			vals[i] = vals[as[1+idx]]
 		default:
-			c.vals[i] = evalNode(t, get)
+			as := c.args[i]
+			vals[i] = evalNode(t, func(k int) uint64 { return vals[as[k]] })
 		}
 	}
-	return get
+}
+
+// Run evaluates all nodes under the assignment (by variable ID) and returns a reader.
+func (c *Compiled) Run(assign map[int]uint64) func(*Term) uint64 {
+	vv := make([]uint64, len(c.Vars))
+	for i, v := range c.Vars {
+		vv[i] = assign[v.ID]
+	}
+	c.RunVals(vv)
+	return c.Value
 }
